@@ -181,9 +181,22 @@ func runC26x(c c26Case) *vstat.Failure {
 			}
 			files[to] = files[s]
 			delete(files, s)
-		case "dir":
-			// a directory with an eligible-looking name, holding a program file
-			if files[s] != nil || strings.HasPrefix(c26Slots[s].rel, "sub/") {
+		case "dir", "todir":
+			// a directory with an eligible-looking name, holding a program file;
+			// "todir": it takes the place (and the name) of a program file
+			if strings.HasPrefix(c26Slots[s].rel, "sub/") {
+				return
+			}
+			if a.Op == "todir" {
+				if files[s] == nil || files[s].isDir {
+					return
+				}
+				if err := os.Remove(path(s)); err != nil {
+					panic(err)
+				}
+				delete(files, s)
+			}
+			if files[s] != nil {
 				return
 			}
 			if err := os.Mkdir(path(s), 0o755); err != nil {
@@ -350,7 +363,7 @@ func TestC26(t *testing.T) {
 	st := vstat.New("C26", "histories over a real program directory (3 eligible program files, a dot-file, a .txt file, a .bak file, files in a subdirectory, a directory with an eligible-looking name): write a new version / the same bytes / a broken version, remove, rename between any two slots (eligible <-> ineligible, program <-> program), each followed by LoadAllPrograms, K lines and quiescence; every (file, version) counts lines under its own stamp, the model predicts which stamps advance by K. non-trivial = a history with a broken edit of a running program followed by a valid edit, or a rename involving an eligible name; distinct by history")
 	st.Assumptions = []string{"lines fully processed per program name are read from the exported vm.LineProcessingDurations histogram", "a scan is observed when LoadAllPrograms returns"}
 	st.Run(t, c26RunRaw, func() {
-		ops := []string{"new", "new", "same", "broken", "broken", "remove", "remove", "revert", "revert", "rename", "rename", "dir", "scan"}
+		ops := []string{"new", "new", "same", "broken", "broken", "remove", "remove", "revert", "revert", "rename", "rename", "dir", "todir", "scan"}
 		st.Check(t, func(rt *rapid.T) {
 			var c c26Case
 			defer st.Guard(func() any { return c })
